@@ -70,7 +70,7 @@ SEGS = ["a", "b", "..", ".", "", "a\\b", "..\\..", "C:", "C:x", "C:..", "\\x", "
 # U+FF41 FULLWIDTH a, e + U+0301 (decomposed e-acute), U+00E9 (composed), U+2215 DIVISION SLASH
 UNI_SEGS = ["a", "..", "", "\u2024\u2024", "\uff0e\uff0e", "\u2025", "\uff0e\uff0e\uff0fx", "\uff0e", "x\uff0fy", "\ufe52\ufe52", "\uff3cx", "C\uff1a",
             "\uff41", "e\u0301", "\u00e9", "\u2215x"]
-UNI_COMBOS = [("posix", "/srv/ftp", "/"), ("posix", "rel/base", "/a/b"), ("posix", "/srv/ftp", "/\u2024\u2024/\uff41"), ("win", "C:\\ftp", "/"),
+UNI_COMBOS = [("posix", "/srv/ftp", "/"), ("win", "C:\\ftp", "/"), ("posix", "rel/base", "/a/b"), ("posix", "/srv/ftp", "/\u2024\u2024/\uff41"),
               ("posix", "/", "/a"), ("posix", "/srv/\uff41", "/"), ("win", "C:\\ftp\\sub", "/a"), ("win", "ftp\\rel", "/\uff0e\uff0e")]
 PREFIXES = ["", "/", "//", "///"]
 CWDS = ["/", "/a", "/a/b", "/a/../b", "//x", "/..", "/a\\b/C:"]
@@ -405,7 +405,7 @@ def stream_unicode(ctx, xcheck, k=None, deadline=None):
         if deadline is not None and time.time() > deadline:
             ctx.notes.append(f"bounded search: unicode k={k} stopped after {idx} of {len(UNI_COMBOS)} (base, cwd) pairs")
             break
-        full = deadline is not None or idx < 4  # the other four pairs see the strings one segment shorter
+        full = deadline is not None or idx < (4 if k <= 3 else 2)  # the other pairs see the strings one segment shorter
         mine = strs if full else shorter
         fn = 10 if flavour == "posix" else 30
         out = ctx.model([(fn, [base, cwd, s]) for s in mine])
